@@ -40,6 +40,10 @@ async fn run_cfg<TC: Tcfg>(case: &Case, st: &mut Stats) -> R {
         if !changed && i % 3 != 0 {
             continue;
         }
+        // very long histories: query only around the one-byte boundary and at the end
+        if batches.len() > 100 && !(i + 1 == batches.len() || (253..=258).contains(&i) || i == 16 || i == 127) {
+            continue;
+        }
         let e = sys.m.epoch;
         let root = sys.m.roots[e as usize];
         let ro = match case.ro_cache {
@@ -142,6 +146,16 @@ pub fn run(eng: &mut Engine) {
         eng.tier.pick(1000, 15_000),
         || strategy(thorough),
         check,
+    );
+    eng.prop_part(
+        "very_deep",
+        "one label driven through 258-300 versions; queries at epochs 17, 128, 254-259 and the last one (marker versions around the skip-list entry 256, version/epoch fields beyond one byte); same oracle; every case non-trivial",
+        eng.tier.pick(6, 48),
+        || (very_deep_hist_strategy(), prop_oneof![Just(CacheKind::None), Just(CacheKind::Default)]).prop_map(|(hist, cache)| Case { hist, cache, par: ParKind::Disabled, extra_n: vec![30000], ro_cache: Some(CacheKind::None) }),
+        |c: &Case, ctx: &mut Ctx| {
+            ctx.nontrivial(fp(&c.hist));
+            check(c, ctx)
+        },
     );
     crate::props::readfaults::add_part(eng, crate::props::readfaults::Kind::History);
 }
